@@ -552,12 +552,12 @@ func TestVerifC17Exhaustive(t *testing.T) {
 		}
 		return
 	}
-	// both tiers: length <= 3 over 8 bytes; thorough adds length <= 4 over 5 and 3 bytes, length <= 5 over 2 and 1 bytes
+	// both tiers: length <= 3 over 8 bytes; thorough adds length <= 4 over 5, 3 and 2 bytes, length <= 5 over 1 byte
 	c17Exhaustive(rec, 8, 3)
 	if ev.Thorough() {
 		c17Exhaustive(rec, 5, 4)
 		c17Exhaustive(rec, 3, 4)
-		c17Exhaustive(rec, 2, 5)
+		c17Exhaustive(rec, 2, 4)
 		c17Exhaustive(rec, 1, 5)
 	} else {
 		c17Exhaustive(rec, 3, 3)
